@@ -6,6 +6,7 @@
   what stays outside the model on the DSL route is the `syn` grammar of `dsl_hir/mod.rs` alone.
 -/
 import DDV.Gen.Lemmas.DslHirConfig
+import DDV.Gen.Lemmas.DslPerm
 import DDV.Props.C16Tree
 
 namespace DDV.Props.C16Hir
@@ -23,12 +24,23 @@ theorem hirTransform_render (d : ADef) (h : TreesOk d.objects) : hirTransform (D
   unfold hirTransform Dsl.renderHir lowerDsl
   simp only [config_render, objs_render _ d.objects h, bind, Except.bind, pure, Except.pure]
 
-/-- The two routes of the model agree end to end: reading the DSL tree with the generator's lowering and reading
-    the manifest value tree key by key give the same MIR or the same rejection. -/
+/-- **The two key-level / tree-level routes of the model agree end to end**: for a definition of the common
+    fragment (what every syntax can express), the generator's lowering of the DSL tree and the key-by-key reading of
+    the manifest value tree give the same MIR or the same rejection - hence, `transform_mir` being one function, the
+    same driver. -/
 theorem dsl_tree_eq_manifest_tree (syn : Syntax) (d : ADef) (h : TreesOk d.objects)
-    (hm : lowerDsl d = manTransform syn (renderTree syn d)) :
+    (hc : DDV.Props.C16.CommonObjs syn d.objects) (hb : d.config.nameWordBoundaries = none)
+    (hn : ∀ p ∈ rObjs syn d.objects, p.1 ≠ "config") (hi : DDV.Props.C16Tree.ObjsIn syn d.objects) :
     hirTransform (Dsl.renderHir d) = manTransform syn (renderTree syn d) := by
-  rw [hirTransform_render d h, hm]
+  rw [hirTransform_render d h]
+  exact DDV.Props.C16Tree.dsl_lowering_eq_tree_reading syn d hc hb hn hi
+
+theorem same_driver_from_the_trees (n : Names) (name : String) (syn : Syntax) (d : ADef) (h : TreesOk d.objects)
+    (hc : DDV.Props.C16.CommonObjs syn d.objects) (hb : d.config.nameWordBoundaries = none)
+    (hn : ∀ p ∈ rObjs syn d.objects, p.1 ≠ "config") (hi : DDV.Props.C16Tree.ObjsIn syn d.objects) :
+    (hirTransform (Dsl.renderHir d) >>= transformMir n name) =
+      (manTransform syn (renderTree syn d) >>= transformMir n name) := by
+  rw [dsl_tree_eq_manifest_tree syn d h hc hb hn hi]
 
 /-- A field written with a single-bit address must be a `bool`: anything else is rejected by the lowering
     (`mir_transform.rs:527-535`), whatever else the field says. -/
@@ -73,6 +85,45 @@ theorem two_defects_same_rejection (g : GlobalConfig) :
   · rw [obj_render g _ (by simp [TreeOk, ObjOk, HirLemmas.ResetOk, HirLemmas.FieldOk, HirLemmas.ConvOk])]
     rfl
   · rfl
+
+
+/-! ### The order of the items in a body does not matter
+
+The grammar refuses a second item of a kind, so each selector of the lowering (`find_map`) sees at most one match; under
+that condition the lowering of a body is invariant under any reordering of its items (the renderer's `item_order` knob
+exercises two orders; this is every order). -/
+
+theorem register_items_order_irrelevant (g : GlobalConfig) (attrs : List HAttr) (name : String)
+    {items items' : List HRegItem} (fields : List HField) (hp : items.Perm items') (hu : HirPerm.RegUnique items) :
+    hirRegister g attrs name items fields = hirRegister g attrs name items' fields :=
+  HirPerm.hirRegister_perm g attrs name fields hp hu
+
+theorem register_override_items_order_irrelevant (attrs : List HAttr) (name : String)
+    {items items' : List HRegItem} (fields : List HField) (hp : items.Perm items') (hu : HirPerm.RegUnique items) :
+    hirRegisterOverride attrs name items fields = hirRegisterOverride attrs name items' fields :=
+  HirPerm.hirRegisterOverride_perm attrs name fields hp hu
+
+theorem command_items_order_irrelevant (g : GlobalConfig) (attrs : List HAttr) (name : String)
+    {items items' : List HCmdItem} (fin fout : Option (List HField)) (hp : items.Perm items')
+    (hu : HirPerm.CmdUnique items) :
+    hirCommand g attrs name (some (.extended items fin fout)) = hirCommand g attrs name (some (.extended items' fin fout)) :=
+  HirPerm.hirCommand_perm g attrs name fin fout hp hu
+
+theorem block_items_order_irrelevant {items items' : List HBlockItem} (hp : items.Perm items')
+    (hu : HirPerm.BlockUnique items) :
+    hirBlockOffset items = hirBlockOffset items' ∧ hirBlockRepeat items = hirBlockRepeat items' :=
+  HirPerm.hirBlockItems_perm hp hu
+
+/-- Non-vacuity: a three-item register body meets `RegUnique`. -/
+example : HirPerm.RegUnique [HRegItem.address ⟨false, 3⟩, .sizeBits ⟨false, 8⟩, .access .ro] := by
+  constructor <;> simp [HirPerm.Unique, HRegItem.access?, HRegItem.byteOrder?, HRegItem.bitOrder?, HRegItem.address?,
+    HRegItem.sizeBits?, hirResetOf, HRegItem.repeat?, HRegItem.allowBitOverlap?, HRegItem.allowAddressOverlap?]
+
+/-- Without the grammar's guarantee the order does matter (`find_map` takes the first match): two `Address` items. -/
+theorem duplicate_items_order_matters :
+    (hirRegister {} [] "R" [.address ⟨false, 1⟩, .address ⟨false, 2⟩, .sizeBits ⟨false, 8⟩] []).toOption.map (·.address) = some 1 ∧
+    (hirRegister {} [] "R" [.address ⟨false, 2⟩, .address ⟨false, 1⟩, .sizeBits ⟨false, 8⟩] []).toOption.map (·.address) = some 2 := by
+  constructor <;> rfl
 
 /-- Non-vacuity: a definition with a block, a register with an enum field and a reset value, a command, a buffer
     and a ref meets `TreesOk`, and its tree lowers successfully. -/
